@@ -614,7 +614,7 @@ func init() {
 			return
 		}
 		n := 16
-		dl := deadline(r, 50*time.Second, 25*time.Minute)
+		dl := deadline(r, 120*time.Second, 25*time.Minute)
 		results := shard.Run(n, []string{"C17", r.Tier}, 90*time.Second, dl)
 		for _, wr := range results {
 			var ex evid.Export
